@@ -19,7 +19,7 @@ def Action.isSpawn : Action → Bool
 
 /-! ### small facts about shards and `eraseAll` / `evictAll` -/
 
-theorem shardIdx_lt (h : Hash) : shardIdx h < numShards.toNat := by
+theorem shardIdx_lt_live (h : Hash) : shardIdx h < numShards.toNat := by
   unfold shardIdx shardOf
   rw [BitVec.toNat_umod]
   exact Nat.mod_lt _ (by decide)
@@ -210,27 +210,27 @@ theorem clr_step {cfg : Cfg} {s s' : State} {a : Action} {t : Tid} {c : Bool} {m
               have hord' : isShardOrder s.store k ks = true := by simpa using hord
               have hkeys : ∀ h ∈ AMap.keys (eraseAll (evictAll s s.store ks).store ks), k + 1 ≤ shardIdx h := by
                 intro h hm
-                rw [evictAll_store] at hm
+                rw [evictAll_store_lv] at hm
                 obtain ⟨h1, h2⟩ := mem_keys_eraseAll hm
                 have h3 := hf'.2.2.2.2 h h1
                 have h4 : shardIdx h ≠ k := fun e => h2 (shardOrder_covers hord' h1 e)
                 omega
               refine ⟨fun t' hne => by simp [setCl_cl_ne _ _ _ hne, evictAll_cl]; exact hi.quiet t' hne,
-                by simp [evictAll_pol]; exact hi.maxc, by simp only [setCl_cl_self]; split <;> rfl, ?_⟩
+                by simp [evictAll_pol_lv]; exact hi.maxc, by simp only [setCl_cl_self]; split <;> rfl, ?_⟩
               simp only [setCl_cl_self]
               split
               · rename_i hlast
-                refine ⟨by simp [evictAll_buf, hf'.1], by simp [evictAll_sendq, hf'.2.1],
-                  by simp [evictAll_pol, hf'.2.2.1], by simp [evictAll_pol, hf'.2.2.2.1], ?_⟩
+                refine ⟨by simp [evictAll_buf_lv, hf'.1], by simp [evictAll_sendq_lv, hf'.2.1],
+                  by simp [evictAll_pol_lv, hf'.2.2.1], by simp [evictAll_pol_lv, hf'.2.2.2.1], ?_⟩
                 apply keys_eq_nil
                 cases hk : AMap.keys (eraseAll (evictAll s s.store ks).store ks) with
                 | nil => simpa using hk
                 | cons h rest =>
                   have := hkeys h (by rw [hk]; simp)
-                  have := shardIdx_lt h
+                  have := shardIdx_lt_live h
                   omega
-              · exact ⟨by simp [evictAll_buf, hf'.1], by simp [evictAll_sendq, hf'.2.1],
-                  by simp [evictAll_pol, hf'.2.2.1], by simp [evictAll_pol, hf'.2.2.2.1], hkeys⟩
+              · exact ⟨by simp [evictAll_buf_lv, hf'.1], by simp [evictAll_sendq_lv, hf'.2.1],
+                  by simp [evictAll_pol_lv, hf'.2.2.1], by simp [evictAll_pol_lv, hf'.2.2.2.1], hkeys⟩
         · simp at hs'
       case clrEm c' =>
         have hcc : c' = c := hcf
@@ -278,7 +278,7 @@ theorem clr_step {cfg : Cfg} {s s' : State} {a : Action} {t : Tid} {c : Bool} {m
 /-! ### the state at the return of `Clear` -/
 
 /-- the shared state of a freshly created cache (capacity = the current `MaxCost`) -/
-structure Fresh (cfg : Cfg) (s : State) : Prop where
+structure FreshSt (cfg : Cfg) (s : State) : Prop where
   store : s.store = AMap.empty
   costs : s.pol.costs = AMap.empty
   used : s.pol.used = 0
@@ -294,7 +294,7 @@ structure Fresh (cfg : Cfg) (s : State) : Prop where
 def CPc.left : CPc → Bool
   | .idle => true | .clsStop => true | .clsDone => true | .clsFinish => true | _ => false
 
-theorem own_left {pc pc' : CPc} (h : Own pc pc') (hl : pc.left = true) : pc'.left = true := by
+theorem own_left {pc pc' : CPc} (h : OwnTr pc pc') (hl : pc.left = true) : pc'.left = true := by
   cases h <;> first | rfl | cases hl
 
 theorem ext_left {pc pc' : CPc} (h : Ext pc pc') (hne : pc ≠ .idle) (hl : pc.left = true) : pc'.left = true := by
@@ -310,12 +310,12 @@ theorem left_stable {cfg : Cfg} {s s' : State} {a : Action} {t : Tid} (hl : (s.c
 
 /-- **C15 (5), state part.**  A `Clear` (or the `Clear` inside `Close`: `c = true`) of client `t`
 that is not overlapped from its drain phase on: when `t` stands before the restart of the
-applier, the restart step is enabled and leads to a `Fresh` state with unchanged `MaxCost`. -/
+applier, the restart step is enabled and leads to a `FreshSt` state with unchanged `MaxCost`. -/
 theorem clear_fresh {cfg : Cfg} {s0 s1 : State} {t : Tid} {c : Bool} {acts : List Action}
     (hr : Reach cfg s0) (hcap : 1 ≤ cfg.bufCap) (hpc0 : s0.cl t = .clrDrain c)
     (hq : ∀ t', t' ≠ t → (s0.cl t').quiet = true) (hns : ∀ a ∈ acts, a.isSpawn = false)
     (hrun : run cfg s0 acts = some s1) (hpc1 : s1.cl t = .clrRestart c) :
-    step cfg s1 (.client t .none) = some (stClrRestart s1 t c) ∧ Fresh cfg (stClrRestart s1 t c) ∧
+    step cfg s1 (.client t .none) = some (stClrRestart s1 t c) ∧ FreshSt cfg (stClrRestart s1 t c) ∧
       (stClrRestart s1 t c).pol.maxCost = s0.pol.maxCost ∧
       (∀ t', t' ≠ t → ((stClrRestart s1 t c).cl t').quiet = true) := by
   have hinv0 : ClrInv cfg t c s0.pol.maxCost s0 :=
@@ -358,11 +358,11 @@ def freshOf (cfg : Cfg) (s : State) : State :=
     closedMarkers := s.closedMarkers, nextMarker := s.nextMarker, log := s.log,
     ringPending := s.ringPending, met := s.met }
 
-/-- **C15 (5), `fresh_equiv`.**  A `Fresh` state in which every client is idle *is* the initial
+/-- **C15 (5), `fresh_equiv`.**  A `FreshSt` state in which every client is idle *is* the initial
 state of a cache created with the current `MaxCost` at a time `now` with the same sweep
 position, up to `closedMarkers / nextMarker / clock / log / ringPending` (and `met`, which is
 all-zero when metrics are on and never written when they are off). -/
-theorem fresh_equiv {cfg : Cfg} {s : State} (hf : Fresh cfg s) (hidle : ∀ t, s.cl t = .idle) :
+theorem fresh_equiv {cfg : Cfg} {s : State} (hf : FreshSt cfg s) (hidle : ∀ t, s.cl t = .idle) :
     s = freshOf cfg s ∧ ∃ now, (freshOf cfg s).em = (init { cfg with maxCost := s.pol.maxCost } now).em := by
   obtain ⟨now, hnow⟩ := hf.cleaned
   refine ⟨?_, now, by simp [freshOf, init, hnow]⟩
@@ -381,10 +381,10 @@ theorem fresh_equiv {cfg : Cfg} {s : State} (hf : Fresh cfg s) (hidle : ∀ t, s
     exact ⟨hf.store, hem, hpol, trivial, hf.buf, hf.sendq, trivial, trivial, hf.app, hcl, trivial, hf.closed,
       trivial, trivial⟩
 
-/-- **C15 (8), Clear.**  Two `Fresh` states with the same `MaxCost` agree on every shared field
+/-- **C15 (8), Clear.**  Two `FreshSt` states with the same `MaxCost` agree on every shared field
 except the sweep position: a second un-overlapped `Clear` right after the first is a no-op
 on store, policy accounting, expiry buckets, metrics (when on), buffer, senders, applier. -/
-theorem fresh_agree {cfg : Cfg} {s s' : State} (h : Fresh cfg s) (h' : Fresh cfg s')
+theorem fresh_agree {cfg : Cfg} {s s' : State} (h : FreshSt cfg s) (h' : FreshSt cfg s')
     (hm : s'.pol.maxCost = s.pol.maxCost) :
     s'.store = s.store ∧ s'.pol = s.pol ∧ s'.em.buckets = s.em.buckets ∧
       (cfg.metricsOn = true → s'.met = s.met) ∧ s'.buf = s.buf ∧ s'.sendq = s.sendq ∧ s'.app = s.app ∧
